@@ -11,13 +11,17 @@ For every case the real schema is built from generated XSD text, the instance is
 `iter_errors`, and three things are compared:
 
   I   the real errors, mapped to (kind, constraint, node) enums;
-  M   the Lean port of the pinned algorithm (XsVerif/Model/Identity.lean `runDoc`, `idRun`) run on what
+  M   the Lean port of the algorithm of the current tree (XsVerif/Model/Identity.lean `runDoc`, `idRun`;
+      it includes the repairs cc593f3 and b32146f, former findings C08-F6 / C08-F7) run on what
       was actually built (constraints, selector / field paths, static binding, declared types read from the
       real objects; instance nodes paired with their declarations by a validation hook)  -> must be equal;
   S   the property itself: an independent Python reading of the XSD rules on the generator's abstract
       table (tiny path evaluator, value classes) and the Lean `specClauses` (whose per-scope checks are
       the Prop-valued spec of Props/C08.lean) -> a difference between I and S is a failing input unless it
-      is one of the listed findings (exact rules in `known_match`).
+      is one of the listed findings F3, F4, F5 (exact rules in `known_match`).  F6 (unique compared partially
+      absent tuples) and F7 (KeyError when the referenced key never occurs) are FIXED in the library: they
+      have no match rule any more, so a recurrence is reported as a violation; their witnesses are replayed
+      on every run as ordinary cases (WITNESSES, corpus/C08) and must now satisfy the property.
 """
 from __future__ import annotations
 
@@ -327,7 +331,8 @@ def oracle(case: dict) -> dict:
         return [tuple(t) for t in (tup(c, n) for n in a_select(c['sel'], s)) if all(x is not None for x in t)]
 
     clauses = set()
-    flags = {'nested': set(), 'spread': set(), 'partialUnique': set(), 'strq': set(), 'conflict': False}
+    flags = {'nested': set(), 'spread': set(), 'strq': set(), 'conflict': False}
+    cover = set()          # branches of the rules reached (input-distribution histogram only)
     work = 0
 
     def scopes(cname, s):
@@ -349,7 +354,9 @@ def oracle(case: dict) -> dict:
                 if len(set(q)) != len(q):
                     clauses.add(('dup', c['name']))
                 if any(None in t and any(x is not None for x in t) for t in tuples):
-                    flags['partialUnique'].add(c['name'])
+                    cover.add('unique-partial-tuple')      # outside the qualified node set (cc593f3)
+                if any(t and all(x is None for x in t) for t in tuples):
+                    cover.add('unique-all-absent')
             elif c['kind'] == 'key':
                 if any(None in t for t in tuples):
                     clauses.add(('missing',))
@@ -361,6 +368,8 @@ def oracle(case: dict) -> dict:
                 tabs = [qualified(r, x) for x in insts]
                 if len(insts) != 1:
                     flags['spread'].add((c['name'], len(insts)))
+                if not insts:
+                    cover.add('keyref-no-refer-scope' + ('-dangling' if q else ''))   # b32146f
                 table = set(itertools.chain.from_iterable(tabs))
                 def lo(t):
                     return tuple(v[2:] if p == 'string' else v for p, v in t)
@@ -381,7 +390,7 @@ def oracle(case: dict) -> dict:
         clauses.add(('idref',))
     if ids and refs:
         work += 1
-    return {'clauses': clauses, 'flags': flags, 'work': work}
+    return {'clauses': clauses, 'flags': flags, 'work': work, 'cover': cover}
 
 
 # ------------------------------------------------------------------------------------------------
@@ -412,8 +421,8 @@ def run_impl(case: dict) -> dict:
     errors = []
     try:
         errors = list(schema.iter_errors(root, validation_hook=hook, namespaces=dict(NSDECL)))
-    except KeyError as e:           # modelled: `identities[self.refer]` on a counter that was never created
-        crashed = 'KeyError'
+    except KeyError:                # no verdict.  The fully-loaded walk of the current tree cannot raise it
+        crashed = 'KeyError'        # (b32146f; the model has no crash outcome): always a failing input
     # ---- node numbering (document order) and declarations
     elems = list(root.iter())
     node_id = {id(e): i for i, e in enumerate(elems)}
@@ -529,7 +538,7 @@ def model_canon(ans: dict, impl: dict) -> dict:
             errs.append(['notfound', names[r], n, x])
     for k, v in ans['id']:
         errs.append([k, v, 0, 0])
-    return {'errors': sorted(errs), 'crash': 'KeyError' if ans['m']['crash'] else None}
+    return {'errors': sorted(errs), 'crash': None}          # the model never raises
 
 
 def lean_clauses(ans: dict, impl: dict) -> set:
@@ -557,12 +566,12 @@ def known_match(case: dict, detail: dict) -> Optional[str]:
           'model_agrees': bool|None, 'keyrefs': {refername: [keyref names]}}
        returns the id of the listed finding that explains it, else None."""
     if detail.get('model_agrees') is False:
-        return None                      # the pinned algorithm does not reproduce it: something new
+        return None                      # the port of the current algorithm does not reproduce it: something new
     fl = detail['flags']
     cl = detail['clause']
     side = detail['side']
     if side == 'crash':
-        return 'C08-F7' if any(m == 0 for _, m in fl['spread']) else None
+        return None                      # C08-F7 is fixed (b32146f): an escaping KeyError is a violation
     involved = set()
     if cl[0] == 'dup':
         involved = {cl[1]}
@@ -572,8 +581,7 @@ def known_match(case: dict, detail: dict) -> Optional[str]:
         involved = {c['name'] for c in case['cons'] if c['kind'] == 'key'}
     if involved & set(fl['nested']):
         return 'C08-F3'
-    if cl[0] == 'dup' and side == 'impl-only' and cl[1] in fl['partialUnique']:
-        return 'C08-F6'
+    # (C08-F6 is fixed, cc593f3: a dup reported for partially absent unique tuples is a violation)
     if cl[0] == 'notfound':
         krs = detail['keyrefs'].get(cl[1], [])
         if any(k in krs and m != 1 for k, m in fl['spread']):     # 0: a stale table from outside the scope is read
@@ -607,6 +615,8 @@ def evaluate(ctx: Ctx, case: dict, reqs: Optional[list], pend: Optional[list], t
         ctx.count(f"con:{c['kind']}@{c['on']}")
     for k in sorted({e[0] for e in impl['errors']}):
         ctx.count('err:' + k)
+    for k in sorted(orc['cover']):
+        ctx.count('branch:' + k)
     ctx.count('verdict:' + ('crash' if impl['crash'] else 'invalid' if impl['errors'] else 'valid'))
     if impl['other']:
         # the generator promises documents that are valid apart from identity constraints
@@ -630,7 +640,7 @@ def judge(ctx: Ctx, case: dict, impl: dict, orc: dict, model_agrees: Optional[bo
     for c in case['cons']:
         if c['kind'] == 'keyref':
             keyrefs.setdefault(c['refer'], []).append(c['name'])
-    flj = {'nested': sorted(fl['nested']), 'spread': sorted(list(x) for x in fl['spread']), 'partialUnique': sorted(fl['partialUnique']),
+    flj = {'nested': sorted(fl['nested']), 'spread': sorted(list(x) for x in fl['spread']),
            'strq': sorted(fl['strq']), 'conflict': fl['conflict']}
     if impl['crash']:
         d = {'clause': ('crash',), 'side': 'crash', 'flags': flj, 'model_agrees': model_agrees, 'keyrefs': keyrefs}
@@ -689,10 +699,8 @@ def flush(ctx: Ctx, drv: Driver, reqs: list, pend: list) -> None:
                 names = impl['names']
                 lflags = {'nested': sorted(names[c] for c in ans['m']['nested']),
                           'spread': sorted({(names[c], m) for c, m in lf['spread']}),
-                          'partialUnique': sorted(names[c] for c in lf['partialUnique']),
                           'strq': sorted(names[c] for c in lf['strq']), 'conflict': lf['conflict']}
-                pflags = {'nested': None, 'spread': sorted(pf['spread']),
-                          'partialUnique': sorted(pf['partialUnique']), 'strq': sorted(pf['strq']),
+                pflags = {'nested': None, 'spread': sorted(pf['spread']), 'strq': sorted(pf['strq']),
                           'conflict': pf['conflict']}
                 lflags['nested'] = None       # dynamic (model) vs static (oracle) notion: not compared
                 if lflags != pflags:
@@ -796,20 +804,89 @@ WITNESSES = {
                'doc': {'tag': 'root', 'vals': [], 'id': None, 'idref': None, 'kids': [
                    {'tag': 'item', 'vals': [['s:{urn:a}x', '{urn:a}x']], 'kids': [], 'id': None, 'idref': None},
                    {'tag': 'ref', 'vals': [['{urn:a}x', 'p:x']], 'kids': [], 'id': None, 'idref': None}]}},
-    'C08-F6': {'v': '1.0', 'recursive': False,
-               'fields': [{'name': 'f1', 'loc': 'attr', 'ty': 'integer', 'rloc': 'attr', 'rty': 'integer'},
-                          {'name': 'f2', 'loc': 'attr', 'ty': 'integer', 'rloc': 'attr', 'rty': 'integer'}],
-               'cons': [{'name': 'K', 'kind': 'unique', 'on': 'root', 'sel': 'item', 'fields': ['@f1', '@f2'],
-                         'refer': None}],
-               'doc': {'tag': 'root', 'vals': [], 'id': None, 'idref': None, 'kids': [
-                   {'tag': 'item', 'vals': [['n1', '1'], None], 'kids': [], 'id': None, 'idref': None},
-                   {'tag': 'item', 'vals': [['n1', '1'], None], 'kids': [], 'id': None, 'idref': None}]}},
-    'C08-F7': {'v': '1.0', 'recursive': False,
-               'fields': [{'name': 'f1', 'loc': 'attr', 'ty': 'integer', 'rloc': 'attr', 'rty': 'integer'}],
-               'cons': [{'name': 'K', 'kind': 'key', 'on': 'sec', 'sel': 'item', 'fields': ['@f1'], 'refer': None},
-                        {'name': 'R', 'kind': 'keyref', 'on': 'root', 'sel': 'ref', 'fields': ['@f1'], 'refer': 'K'}],
-               'doc': {'tag': 'root', 'vals': [], 'id': None, 'idref': None, 'kids': []}},
 }
+
+
+def _row(tag, *vals):
+    return {'tag': tag, 'vals': list(vals), 'kids': [], 'id': None, 'idref': None}
+
+
+_F2 = [{'name': 'f1', 'loc': 'attr', 'ty': 'integer', 'rloc': 'attr', 'rty': 'integer'},
+       {'name': 'f2', 'loc': 'attr', 'ty': 'integer', 'rloc': 'attr', 'rty': 'integer'}]
+_UNIQ2 = [{'name': 'K', 'kind': 'unique', 'on': 'root', 'sel': 'item', 'fields': ['@f1', '@f2'], 'refer': None}]
+_F1 = [{'name': 'f1', 'loc': 'attr', 'ty': 'integer', 'rloc': 'attr', 'rty': 'integer'}]
+_KSEC_RROOT = [{'name': 'K', 'kind': 'key', 'on': 'sec', 'sel': 'item', 'fields': ['@f1'], 'refer': None},
+               {'name': 'R', 'kind': 'keyref', 'on': 'root', 'sel': 'ref', 'fields': ['@f1'], 'refer': 'K'}]
+
+FIXED_WITNESSES = {
+    # witnesses of the findings that were repaired in the library.  They are ordinary cases now: the real
+    # code must satisfy the property on them (no match rule exists for them any more), the Lean theorems
+    # `unique_partial_witness` / `absent_refer_witness` state the same inputs for the model.
+    # C08-F6 (cc593f3): two nodes (1, absent) under a two-field unique: valid
+    'C08-F6': {'v': '1.0', 'recursive': False, 'fields': _F2, 'cons': _UNIQ2,
+               'doc': {'tag': 'root', 'vals': [], 'id': None, 'idref': None, 'kids': [
+                   _row('item', ['n1', '1'], None), _row('item', ['n1', '1'], None)]}},
+    # ... and a partially absent node must not hide the duplicate among the complete ones
+    'C08-F6/b': {'v': '1.0', 'recursive': False, 'fields': _F2, 'cons': _UNIQ2,
+                 'doc': {'tag': 'root', 'vals': [], 'id': None, 'idref': None, 'kids': [
+                     _row('item', ['n1', '1'], ['n2', '2']), _row('item', ['n1', '1'], None),
+                     _row('item', ['n1', '01'], ['n2', '+2'])]}},
+    # C08-F7 (b32146f): the element of the referenced key does not occur: <root/> is valid ...
+    'C08-F7': {'v': '1.0', 'recursive': False, 'fields': _F1, 'cons': _KSEC_RROOT,
+               'doc': {'tag': 'root', 'vals': [], 'id': None, 'idref': None, 'kids': []}},
+    # ... and <root><ref f1="1"/><ref f1="01"/><ref/></root> reports the dangling value once (2 times)
+    'C08-F7/b': {'v': '1.0', 'recursive': False, 'fields': _F1, 'cons': _KSEC_RROOT,
+                 'doc': {'tag': 'root', 'vals': [], 'id': None, 'idref': None, 'kids': [
+                     _row('ref', ['n1', '1']), _row('ref', ['n1', '01']), _row('ref', None)]}},
+}
+
+
+def absent_refer_cases(ctx: Ctx):
+    """exhaustive: a keyref on the root whose referenced key/unique is declared on `sec`, documents WITHOUT any
+    `sec` (the region of the former C08-F7): every table of <= 3 (4) reference rows, 1 field of each type, and
+    every table of <= 2 two-field reference rows"""
+    vals1 = {'integer': [None, ['n1', '1'], ['n1', '01'], ['n2', '2']],
+             'decimal': [None, ['n1', '1.0'], ['n1', '+1'], ['n2.5', '2.50']],
+             'boolean': [None, ['bT', 'true'], ['bT', '1'], ['bF', '0']],
+             'QName': [None, ['{urn:a}x', 'p:x'], ['{urn:a}x', 'q:x'], ['{urn:b}x', 'r:x']],
+             'string': [None, ['s:1', '1'], ['s:01', '01'], ['s:a', 'a']]}
+    for ty in TYPES:
+        for kind in ('key', 'unique'):
+            fields = [{'name': 'f1', 'loc': 'attr', 'ty': ty, 'rloc': 'attr', 'rty': ty}]
+            cons = [{'name': 'K', 'kind': kind, 'on': 'sec', 'sel': 'item', 'fields': ['@f1'], 'refer': None},
+                    {'name': 'R', 'kind': 'keyref', 'on': 'root', 'sel': 'ref', 'fields': ['@f1'], 'refer': 'K'}]
+            for n in range(ctx.pick(3, 4) + 1):
+                if kind == 'unique' and n > 2:
+                    continue
+                for combo in itertools.product(vals1[ty], repeat=n):
+                    yield {'v': '1.0', 'recursive': False, 'fields': fields, 'cons': cons,
+                           'doc': {'tag': 'root', 'vals': [], 'kids': [_row('ref', v) for v in combo],
+                                   'id': None, 'idref': None}}
+    fields = [{'name': 'f1', 'loc': 'attr', 'ty': 'integer', 'rloc': 'attr', 'rty': 'decimal'},
+              {'name': 'f2', 'loc': 'child', 'ty': 'boolean', 'rloc': 'child', 'rty': 'boolean'}]
+    cons = [{'name': 'K', 'kind': 'key', 'on': 'sec', 'sel': 'item', 'fields': ['@f1', 'f2'], 'refer': None},
+            {'name': 'R', 'kind': 'keyref', 'on': 'root', 'sel': './/ref', 'fields': ['@f1', 'f2'], 'refer': 'K'}]
+    pairs = list(itertools.product([None, ['n1', '1.0'], ['n2', '2']], [None, ['bT', 'true'], ['bT', '1']]))
+    for n in range(3):
+        for combo in itertools.product(pairs, repeat=n):
+            yield {'v': '1.1', 'recursive': False, 'fields': fields, 'cons': cons,
+                   'doc': {'tag': 'root', 'vals': [], 'kids': [_row('ref', *v) for v in combo],
+                           'id': None, 'idref': None}}
+
+
+def unique_partial_cases(ctx: Ctx):
+    """exhaustive: a two-field unique over 3 rows, each field absent / value 1 (two lexical variants) / value 2
+    (the region of the former C08-F6: partially absent tuples among complete ones)"""
+    v = [None, ['n1', '1'], ['n1', '+01'], ['n2', '2']]
+    rows = list(itertools.product(v[:ctx.pick(3, 4)], v[:2] + v[3:]))
+    for kind in ('unique',):
+        cons = [{'name': 'K', 'kind': kind, 'on': 'root', 'sel': 'item', 'fields': ['@f1', '@f2'], 'refer': None}]
+        for combo in itertools.product(rows, repeat=3):
+            if ctx.quick() and not any((r[0] is None) != (r[1] is None) for r in combo):
+                continue            # quick tier: only tables with at least one partially absent tuple
+            yield {'v': '1.0', 'recursive': False, 'fields': _F2, 'cons': cons,
+                   'doc': {'tag': 'root', 'vals': [], 'kids': [_row('item', *r) for r in combo],
+                           'id': None, 'idref': None}}
 
 
 def run(ctx: Ctx, driver_ok: bool) -> None:
@@ -830,8 +907,14 @@ def run(ctx: Ctx, driver_ok: bool) -> None:
             go(json.loads(p.read_text()), 'corpus')
     for fid, case in WITNESSES.items():
         go(case, 'witness')
+    for fid, case in FIXED_WITNESSES.items():
+        go(case, 'fixed-witness')
     for case in exhaustive_cases(ctx):
         go(case, 'exhaustive')
+    for case in absent_refer_cases(ctx):
+        go(case, 'exhaustive-absent-refer')
+    for case in unique_partial_cases(ctx):
+        go(case, 'exhaustive-unique-partial')
     n = ctx.pick(2500, 30000)
     for i in range(n):
         go(random_case(ctx.rng, big=(i % 5 == 4)), 'random')
@@ -843,7 +926,9 @@ def run(ctx: Ctx, driver_ok: bool) -> None:
     ctx.extra['exhaustive'] = True
     ctx.extra['explanation'] = ('exhaustive: every table of <= %d rows (item/ref) over {absent, two lexical variants of one '
                                 'value, a second value} for each of the 5 field types x unique/key x attribute/child; every '
-                                'pair of 2-field rows x one reference row; every ID/IDREF assignment over 3+2 rows.  '
+                                'pair of 2-field rows x one reference row; every ID/IDREF assignment over 3+2 rows; every '
+                                'table of reference rows whose referenced key never occurs; every 3-row table of a 2-field '
+                                'unique (quick: those with a partially absent tuple).  '
                                 'random: %d seeded template x document cases') % (ctx.pick(3, 4), n)
 
 
